@@ -272,6 +272,32 @@ def value_faults(case, ref, rng, P=None, limit=None, second=False):
                        sig=("value2", case.t, case.cc, R.pstr(e1.path), R.pstr(e2.path)))
 
 
+def twin_value_faults(case, ref, rng, P=None, limit=2):
+    """Two leaves of the SAME declared type hold two DIFFERENT values outside the allowed set (objects that stand for
+    'unknown value of type T' must not be shared between fields)."""
+    P = P or layout.pinned()
+    groups = {}
+    for e in ref.events:
+        if e.value is not None and constrained(P["types"][e.tname]):
+            groups.setdefault(e.tname, []).append(e)
+    twins = [(tn, es) for tn, es in sorted(groups.items()) if len(es) >= 2]
+    rng.shuffle(twins)
+    for tn, es in twins[:limit]:
+        desc = P["types"][tn]
+        bad = sorted({v for _l, v in value_fault_values(desc, rng) if not R.in_intervals(v, desc["valid"])})
+        if len(bad) < 2:
+            continue
+        e1, e2 = rng.sample(es, 2)
+        v1, v2 = rng.sample(bad, 2)
+        d = patch(case.d, e1.span, v1, desc["signed"])
+        d = patch(d, e2.span, v2, desc["signed"]) if d is not None else None
+        if d is None:
+            continue
+        yield Case(case.t, d, case.cc, case.enc, origin=case.origin,
+                   fault=dict(kind="value-twins", type=tn, fields=[R.pstr(e1.path), R.pstr(e2.path)], new=[v1, v2]),
+                   sig=("value-twins", case.t, case.cc, R.pstr(e1.path), R.pstr(e2.path)))
+
+
 def cut_faults(case, every=1):
     n = len(case.d)
     for cut in range(0, n, every):
